@@ -4,6 +4,7 @@
     Thrift/ParquetMetaModel.v + ParquetMetaDesc.v mirroring parquet_types.c). *)
 From Coq Require Import ZArith NArith List.
 From Carquet Require Import Base.Res Thrift.ThriftSpec Thrift.ThriftModel Thrift.ThriftProofs.
+From Carquet Require Import Thrift.ParquetMetaDesc Thrift.ParquetMetaModel Thrift.ParquetMetaProofs.
 Import ListNotations.
 Local Open Scope N_scope.
 
@@ -24,3 +25,16 @@ Theorem skip_depth_unbounded_before_repair : forall frames, exists bs,
   length bs = S frames /\ skip_unbounded frames 9 (decoder_init bs) = Fault DepthExceeded.
 Proof. exact skip_unbounded_refuted. Qed.
 Print Assumptions skip_depth_unbounded_before_repair.
+
+(** parquet_parse_file_metadata / parquet_parse_page_header on ANY bytes: no read outside the buffer, no
+    fuel or depth exhaustion (they terminate), and the reported byte count stays within the input. *)
+Theorem parse_metadata_never_faults : forall bs f,
+  parse_file_metadata bs <> Fault f /\ parse_page_header bs <> Fault f.
+Proof. intros bs f. split; [apply parse_file_metadata_never_faults | apply parse_page_header_never_faults]. Qed.
+Print Assumptions parse_metadata_never_faults.
+
+Theorem parse_consumed_within_input : forall bs r c,
+  (parse_file_metadata bs = Ok (r, c) -> c <= N.of_nat (length bs)) /\
+  (parse_page_header bs = Ok (r, c) -> c <= N.of_nat (length bs)).
+Proof. intros bs r c. split; [apply parse_file_metadata_consumed | apply parse_page_header_consumed]. Qed.
+Print Assumptions parse_consumed_within_input.
